@@ -680,7 +680,7 @@ func patterns(r *lib.Report, tier string, samples *[]interface{}) (int64, int64)
 	var gen2 func(cur []int, used int)
 	gen2 = func(cur []int, used int) {
 		eqOrders = append(eqOrders, append([]int{}, cur...))
-		if len(cur) == 3 && tier != "thorough" {
+		if (len(cur) == 3 && tier != "thorough") || len(cur) == 5 { // ordered subsets of up to 3 (thorough: 5) of the 11 patterns
 			return
 		}
 		for i := range eqSpecs {
